@@ -32,7 +32,8 @@ constexpr auto ceil_resid(T const x, T const xWhole) noexcept -> int
 template <typename T>
 constexpr auto ceil_int(T const x, T const xWhole) noexcept -> T
 {
-    return (xWhole + static_cast<T>(ceil_resid(x, xWhole)));
+    // keep the sign of a zero result: ceil(-0.5) is -0.0
+    return (x < T(0) && xWhole == T(0)) ? -T(0) : (xWhole + static_cast<T>(ceil_resid(x, xWhole)));
 }
 
 template <typename T>
@@ -44,8 +45,11 @@ constexpr auto ceil_check(T const x) noexcept -> T
             !is_finite(x) ? x
                           :
                           // signed-zero cases
-            etl::numeric_limits<T>::epsilon() > abs(x) ? x
-                                                       :
+            x == T(0) ? x
+                      :
+                      // already integral (and need not fit llint_t)
+            abs(x) >= T(1) / etl::numeric_limits<T>::epsilon() ? x
+                                                               :
                                                        // else
             ceil_int(x, T(static_cast<llint_t>(x)))
     );
